@@ -6,6 +6,7 @@
 (*   slit  -> ln(p/p0) of the published slit equation for the chosen widths *)
 (*            (minus the Cheng-Yang term when cy)                          *)
 (*   judge -> the property's clauses evaluated on a recorded run           *)
+(*   rycyl -> Rege-Yang cylinder: ring existence, population rule, weighting *)
 (*   audit -> library adsorbent table against the literature values of HK   *)
 (***************************************************************************)
 EXTENDS HK, Json, IOUtils
@@ -41,6 +42,7 @@ Step(q) ==
     [] q.k = "prep" -> Prep(q)
     [] q.k = "slit" -> Slit(q)
     [] q.k = "judge" -> Judge(q)
+    [] q.k = "rycyl" -> RYCylJudge(q)
     [] q.k = "audit" -> Audit(q)
 
 ASSUME JsonSerialize(IOEnv.X_OUT, [i \in 1..Len(Q) |-> Step(Q[i])])
